@@ -126,6 +126,13 @@ def asciiBytes (s : String) : Bytes := s.toList.map (fun c => UInt8.ofNat c.toNa
 /-- `new(felt.Felt).SetBytes([]byte(s))` for an ASCII constant. -/
 def strFelt (s : String) : Term := .felt (bytesToNat (asciiBytes s))
 
+/-- the Stark field prime `P = 2^251 + 17·2^192 + 1`: `felt.SetBytes` reduces modulo it. -/
+def starkPrime : Nat := 2 ^ 251 + 17 * 2 ^ 192 + 1
+
+/-- `new(felt.Felt).SetBytes(bs)`: the big-endian value REDUCED modulo `P` (a byte string of 32 bytes
+or more — or a 32-byte one with a large first byte — wraps around). -/
+def setBytes (bs : Bytes) : Term := .felt (bytesToNat bs % starkPrime)
+
 def u64 (x : UInt64) : Term := .felt x.toNat
 def len (xs : List α) : Term := .felt xs.length
 
@@ -158,10 +165,16 @@ structure Ver where
   patch : Nat
 deriving DecidableEq, Repr
 
+/-- SWITCH (the model follows the code). `false`: /repo as it is — `ParseBlockVersion` accepts version
+strings of any length. `true`: with `proposed-fixes/C02-long-protocol-version-wraps-mod-p.diff` strings
+longer than 31 bytes are a parse error. Tied by the `dispatch` / `bh` lines with 40-byte strings. -/
+def versionLengthLimited : Bool := true
+
 /-- `ParseBlockVersion`: empty string is 0.0.0; only the first three dot-separated parts are parsed,
 anything after them is ignored; missing parts are 0. -/
 def parseVersion (v : Bytes) : Option Ver :=
   if v.isEmpty then some ⟨0, 0, 0⟩ else
+  if versionLengthLimited && v.length > 31 then none else
   let parts := splitDots v
   let get (i : Nat) : Option Nat :=
     match parts[i]? with
@@ -641,7 +654,7 @@ def dispatch (net : Net) (number : UInt64) (version : Bytes) : Option Format :=
 def commonPrefix (tag : String) (h : Header) (seq : Term) (sd : StateDiff) (txLeaf : Tx → Term)
     (b : Block) : List Term :=
   [strFelt tag, u64 h.number, h.stateRoot, seq, u64 h.timestamp,
-   .felt (concatCounts h.txCount h.eventCount (sdLen64 sd) h.l1DAMode),
+   .felt (concatCounts h.txCount h.eventCount (sdLen64 sd) h.l1DAMode % starkPrime),
    stateDiffHash sd, .comm .pos (b.txs.map txLeaf), .comm .pos (eventLeaves b.receipts),
    .comm .pos (b.receipts.map receiptHash)]
 
@@ -654,7 +667,7 @@ def post0134 (b : Block) (sd : StateDiff) : Option Term :=
     | some dw, some df, some lw, some lf =>
       let prices : Term := .posN [strFelt "STARKNET_GAS_PRICES0", h.l1GasPriceETH, strk, dw, df, lw, lf]
       some (.posN (commonPrefix "STARKNET_BLOCK_HASH1" h seq sd txLeaf0134 b
-                   ++ [prices, .felt (bytesToNat h.version), .felt 0, h.parentHash]))
+                   ++ [prices, setBytes h.version, .felt 0, h.parentHash]))
     | _, _, _, _ => none
   | _, _, _, _ => none
 
@@ -666,7 +679,7 @@ def post0132 (b : Block) (sd : StateDiff) : Option Term :=
   let dw := (h.l1DataGasPrice.bind (·.wei)).getD z
   let df := (h.l1DataGasPrice.bind (·.fri)).getD z
   some (.posN (commonPrefix "STARKNET_BLOCK_HASH0" h (h.sequencer.getD z) sd txLeaf0132 b
-               ++ [h.l1GasPriceETH, h.l1GasPriceSTRK.getD z, dw, df, .felt (bytesToNat h.version), .felt 0,
+               ++ [h.l1GasPriceETH, h.l1GasPriceSTRK.getD z, dw, df, setBytes h.version, .felt 0,
                    h.parentHash]))
 
 def pedTxComm (b : Block) : Option Term :=
